@@ -174,6 +174,53 @@ def make_last_script(rng, name, kind=None):
     lines.append("titer")
     return f"=== {name} plan={plan} nkeys={n + 6}\n" + "\n".join(lines) + "\n"
 
+def make_foreign_script(rng, name, kind=None):
+    """C05 for HashTable: the caller looks elements up under ANOTHER element's hash (hashes = bucket
+    positions, one tag for everybody, so a lookup under hash h reaches every element stored in h's probe
+    window): find / find_mut / find_entry + remove / remove + re-insert through the returned VacantEntry /
+    get_many_mut / entry with foreign hashes, on a table filled to exact capacity (growth_left = 0) whose
+    only EMPTY bytes sit in front of a long run.  Results are unspecified; every operation must return and
+    leave the counters exact."""
+    kind = kind or rng.choice(["table-plain", "table-drop", "table-6"])
+    nb = rng.choice([32, 64])
+    cap = nb * 7 // 8
+    lo = nb - cap
+    lines = [f"kind {kind}"] + [f"hash {k} {k}" for k in range(nb + 8)]
+    stamp = [0]
+    def st():
+        stamp[0] += 1
+        return stamp[0]
+    lines.append(f"twithcap {cap}")
+    for k in range(lo, nb):
+        lines.append(f"tinsertunique {k} {st()} {k % 97}")
+    lines.append("tcapacity"); lines.append("tlen")
+    live = set(range(lo, nb))
+    for _ in range(rng.choice([6, 12, 24])):
+        e = rng.choice(sorted(live)) if live else lo
+        h = rng.choice([e, max(0, e - rng.randrange(1, 15)), rng.randrange(0, e + 1), rng.randrange(0, lo + 1)])
+        c = rng.choice(["tremovereinsert", "tremovereinsert", "tremovereinsert", "tfind", "tfindmut", "tfindentryremove", "tgetmanymut", "tentryorinsert", "titerhash"])
+        if c == "tremovereinsert":
+            lines.append(f"tremovereinsert {h} id {e} {st()} {rng.randrange(100)}")
+        elif c == "tfind":
+            lines.append(f"tfind {h} id {e}")
+        elif c == "tfindmut":
+            lines.append(f"tfindmut {h} id {e} {rng.randrange(100)}")
+        elif c == "tfindentryremove":
+            lines.append(f"tfindentryremove {h} id {e}"); lines.append(f"tinsertunique {e} {st()} 1")
+        elif c == "tgetmanymut":
+            e2 = rng.choice(sorted(live))
+            lines.append(f"tgetmanymut {rng.randrange(3)} 2 {h} id {e} {max(0, e2 - 3)} id {e2}")
+        elif c == "tentryorinsert":
+            lines.append(f"tentryorinsert {h} {st()} {rng.randrange(100)}")
+        else:
+            lines.append(f"titerhash {h}")
+        lines.append("tlen")
+    lines.append("tcapacity"); lines.append("titer")
+    for k in rng.sample(range(nb + 4), 8):
+        lines.append(f"tentryorinsert {k} {st()} 3")
+    lines.append("tlen"); lines.append("titer")
+    return f"=== {name} plan=positions nkeys={nb + 6}\n" + "\n".join(lines) + "\n"
+
 def make_many_script(rng, name, kind=None):
     """C15: get_many_mut on small and medium tables whose elements share a tag (so that a lookup under
     ANOTHER element's hash reaches them), with closures from exact (id) to sloppy (value classes,
